@@ -336,6 +336,98 @@ Definition st_sat (s : lst) (sigma : string -> R) : Prop :=
   (forall r, In r (s_rows s) -> mrow_holds sigma r) /\
   dom_sat (s_dom s) sigma.
 
+
+(* ---------- formulas over Boolean variables (the assertions of the logic fragment covered here) *)
+Fixpoint lvars (e : exp) : list string :=
+  match e with
+  | Var n => [n]
+  | Not x | UnOp _ x => lvars x
+  | And l | Or l => (fix fm (l : list exp) : list string := match l with [] => [] | x :: xs => lvars x ++ fm xs end) l
+  | Xor a b | Implies a b | Iff a b => lvars a ++ lvars b
+  | _ => []
+  end.
+Fixpoint blogic (s : lst) (e : exp) : bool :=
+  match e with
+  | Num v => xq_is_zero v || xq_is_one v
+  | Var n => is_boolean_var s n
+  | Not x | UnOp UNot x => blogic s x
+  | And l | Or l => (fix all (l : list exp) : bool := match l with [] => true | x :: xs => blogic s x && all xs end) l
+  | Xor a b | Implies a b | Iff a b => blogic s a && blogic s b
+  | _ => false
+  end.
+Lemma lvars_list l : (fix fm (l : list exp) : list string := match l with [] => [] | x :: xs => lvars x ++ fm xs end) l = flat_map lvars l.
+Proof. induction l as [|x xs IH]; [reflexivity|]. cbn [flat_map]. rewrite <- IH. reflexivity. Qed.
+Lemma blogic_list s l : (fix all (l : list exp) : bool := match l with [] => true | x :: xs => blogic s x && all xs end) l = forallb (blogic s) l.
+Proof. induction l as [|x xs IH]; [reflexivity|]. cbn [forallb]. rewrite <- IH. reflexivity. Qed.
+Lemma bvar_bin s sigma n : is_boolean_var s n = true -> dom_sat (s_dom s) sigma -> bin (sigma n).
+Proof.
+  unfold is_boolean_var. destruct (al_get (s_dom s) n) as [[t u]|] eqn:G; [|discriminate]. destruct t; try discriminate. intros _ D.
+  apply al_get_In in G. exact (D n _ G).
+Qed.
+Lemma bin_bnR x : bin x -> exists b, x = bnR b.
+Proof. intros [->| ->]; [exists false|exists true]; reflexivity. Qed.
+
+Lemma blogic_values s sigma : dom_sat (s_dom s) sigma -> forall l,
+  Forall (fun e => blogic s e = true -> exists b, evT sigma e = Some (bnR b) /\ ev sigma e = Some (bnR b)) l -> forallb (blogic s) l = true ->
+  exists bs, evlist_ok sigma true l = Some (map bnR bs) /\ evlist_ok sigma false l = Some (map bnR bs).
+Proof.
+  intros D l F. induction F as [|e l He _ IH]; intros H; [exists []; split; reflexivity|]. cbn [forallb] in H. apply andb_true_iff in H as [H1 H2].
+  destruct (He H1) as [b [T E]]. destruct (IH H2) as [bs [Tl El]]. exists (b :: bs). unfold evT, ev in *. cbn [evlist_ok map].
+  rewrite T, E, Tl, El. unfold operand_ok. cbn [negb orb]. rewrite is_binR_bnR, orb_true_r. split; reflexivity.
+Qed.
+Lemma blogic_total s sigma : dom_sat (s_dom s) sigma -> forall e, blogic s e = true -> exists b, evT sigma e = Some (bnR b) /\ ev sigma e = Some (bnR b).
+Proof.
+  intros D. induction e using exp_ind'; intros Hb; try discriminate.
+  - cbn [blogic] in Hb. destruct x as [q| | |]; try discriminate. apply orb_true_iff in Hb as [Z|Z].
+    + apply xq_is_zero_Fin in Z. exists false. unfold evT, ev. cbn [evg]. rewrite Z. split; reflexivity.
+    + apply xq_is_one_Fin in Z. exists true. unfold evT, ev. cbn [evg]. rewrite Z. split; reflexivity.
+  - cbn [blogic] in Hb. destruct (bin_bnR _ (bvar_bin s sigma s0 Hb D)) as [b Eb]. exists b. unfold evT, ev. cbn [evg]. rewrite Eb. split; reflexivity.
+  - cbn [blogic] in Hb. rewrite blogic_list in Hb. destruct (blogic_values s sigma D l H Hb) as [bs [T E]].
+    exists (forallb truthyR (map bnR bs)). unfold evT, ev. rewrite !evg_And, T, E. split; reflexivity.
+  - cbn [blogic] in Hb. rewrite blogic_list in Hb. destruct (blogic_values s sigma D l H Hb) as [bs [T E]].
+    exists (existsb truthyR (map bnR bs)). unfold evT, ev. rewrite !evg_Or, T, E. split; reflexivity.
+  - cbn [blogic] in Hb. destruct (IHe Hb) as [b [T E]]. exists (negb b). unfold evT, ev in *. rewrite !evg_Not, T, E. cbn [option_map]. rewrite truthyR_bnR. split; reflexivity.
+  - cbn [blogic] in Hb. apply andb_true_iff in Hb as [H1 H2]. destruct (IHe1 H1) as [b1 [T1 E1]]. destruct (IHe2 H2) as [b2 [T2 E2]].
+    exists (xorb b1 b2). unfold evT, ev in *. rewrite !evg_Xor, T1, T2, E1, E2, !truthyR_bnR. split; reflexivity.
+  - cbn [blogic] in Hb. apply andb_true_iff in Hb as [H1 H2]. destruct (IHe1 H1) as [b1 [T1 E1]]. destruct (IHe2 H2) as [b2 [T2 E2]].
+    exists (negb b1 || b2)%bool. unfold evT, ev in *. rewrite !evg_Implies, T1, T2, E1, E2, !truthyR_bnR. split; reflexivity.
+  - cbn [blogic] in Hb. apply andb_true_iff in Hb as [H1 H2]. destruct (IHe1 H1) as [b1 [T1 E1]]. destruct (IHe2 H2) as [b2 [T2 E2]].
+    exists (Bool.eqb b1 b2). unfold evT, ev in *. rewrite !evg_Iff, T1, T2, E1, E2, !truthyR_bnR. split; reflexivity.
+  - cbn [blogic] in Hb. destruct op; [discriminate|]. destruct (IHe Hb) as [b [T E]]. exists (negb b). unfold evT, ev in *. rewrite !evg_UNot, T, E. cbn [option_map]. rewrite truthyR_bnR. split; reflexivity.
+Qed.
+Lemma evlist_ok_agree rho sigma l : Forall (fun e => ev rho e = ev sigma e) l -> evlist_ok rho false l = evlist_ok sigma false l.
+Proof. induction 1 as [|x l Hx _ IH]; [reflexivity|]. unfold ev in Hx. cbn [evlist_ok]. rewrite Hx, IH. reflexivity. Qed.
+Lemma ev_agree_logic s rho sigma : forall e, blogic s e = true -> (forall n, In n (lvars e) -> rho n = sigma n) -> ev rho e = ev sigma e.
+Proof.
+  induction e using exp_ind'; intros H0 A; try discriminate.
+  - reflexivity.
+  - unfold ev. cbn [evg]. rewrite (A s0 (or_introl eq_refl)). reflexivity.
+  - cbn [blogic lvars] in H0, A. rewrite blogic_list in H0. rewrite lvars_list in A. unfold ev. rewrite !evg_And. rewrite (evlist_ok_agree rho sigma l); [reflexivity|].
+    apply Forall_forall. intros e He. apply (proj1 (Forall_forall _ _) H e He); [exact (proj1 (forallb_forall _ _) H0 e He)|].
+    intros n Hn. apply A. apply in_flat_map. exists e. split; assumption.
+  - cbn [blogic lvars] in H0, A. rewrite blogic_list in H0. rewrite lvars_list in A. unfold ev. rewrite !evg_Or. rewrite (evlist_ok_agree rho sigma l); [reflexivity|].
+    apply Forall_forall. intros e He. apply (proj1 (Forall_forall _ _) H e He); [exact (proj1 (forallb_forall _ _) H0 e He)|].
+    intros n Hn. apply A. apply in_flat_map. exists e. split; assumption.
+  - cbn [blogic lvars] in *. unfold ev in *. rewrite !evg_Not, (IHe H0 A). reflexivity.
+  - cbn [blogic lvars] in *. apply andb_true_iff in H0 as [H1 H2]. unfold ev in *. rewrite !evg_Xor.
+    rewrite (IHe1 H1) by (intros n Hn; apply A; apply in_or_app; left; exact Hn). rewrite (IHe2 H2) by (intros n Hn; apply A; apply in_or_app; right; exact Hn). reflexivity.
+  - cbn [blogic lvars] in *. apply andb_true_iff in H0 as [H1 H2]. unfold ev in *. rewrite !evg_Implies.
+    rewrite (IHe1 H1) by (intros n Hn; apply A; apply in_or_app; left; exact Hn). rewrite (IHe2 H2) by (intros n Hn; apply A; apply in_or_app; right; exact Hn). reflexivity.
+  - cbn [blogic lvars] in *. apply andb_true_iff in H0 as [H1 H2]. unfold ev in *. rewrite !evg_Iff.
+    rewrite (IHe1 H1) by (intros n Hn; apply A; apply in_or_app; left; exact Hn). rewrite (IHe2 H2) by (intros n Hn; apply A; apply in_or_app; right; exact Hn). reflexivity.
+  - cbn [blogic lvars] in *. destruct op; [discriminate|]. unfold ev in *. rewrite !evg_UNot, (IHe H0 A). reflexivity.
+Qed.
+Lemma blogic_mono s s' : (forall n, is_boolean_var s n = true -> is_boolean_var s' n = true) -> forall e, blogic s e = true -> blogic s' e = true.
+Proof.
+  intros Hm. induction e using exp_ind'; intros H0; try discriminate; cbn [blogic] in *; try assumption; auto.
+  - rewrite blogic_list in *. apply forallb_forall. intros e He. apply (proj1 (Forall_forall _ _) H e He). exact (proj1 (forallb_forall _ _) H0 e He).
+  - rewrite blogic_list in *. apply forallb_forall. intros e He. apply (proj1 (Forall_forall _ _) H e He). exact (proj1 (forallb_forall _ _) H0 e He).
+  - apply andb_true_iff in H0 as [H1 H2]. rewrite IHe1, IHe2 by assumption. reflexivity.
+  - apply andb_true_iff in H0 as [H1 H2]. rewrite IHe1, IHe2 by assumption. reflexivity.
+  - apply andb_true_iff in H0 as [H1 H2]. rewrite IHe1, IHe2 by assumption. reflexivity.
+  - destruct op; [discriminate|]. auto.
+Qed.
+
 Definition cgood (K : list string) (c : constr) : Prop :=
   c_assert c = false /\ plainA (c_lhs c) = true /\ plainA (c_rhs c) = true /\
   incl (xvars (c_lhs c)) K /\ incl (xvars (c_rhs c)) K.
@@ -343,11 +435,26 @@ Definition rgood (K : list string) (r : midrow) : Prop :=
   NoDup (map fst (r_lhs r)) /\ incl (map fst (r_lhs r)) K /\ cs_fin (r_lhs r) /\ fin (r_rhs r).
 Definition dom_box (s : lst) : Prop :=
   forall sigma, dom_sat (s_dom s) sigma -> forall n, In n (ukeys s) -> in_b (a_get (s_an s) n) (sigma n).
+Lemma boolvar_dom s s' n : s_dom s = s_dom s' -> is_boolean_var s n = is_boolean_var s' n.
+Proof. intros E. unfold is_boolean_var. rewrite E. reflexivity. Qed.
+Lemma blogic_dom s s' e : s_dom s = s_dom s' -> blogic s e = true -> blogic s' e = true.
+Proof. intros E. apply blogic_mono. intros n Hn. rewrite <- (boolvar_dom s s' n E). exact Hn. Qed.
+(* a queued constraint is either arithmetic or an assertion of a formula over Boolean variables *)
+Definition agood (s : lst) (c : constr) : Prop :=
+  c_assert c = true /\ c_cmp c = Eq /\ (exists q, c_rhs c = Num (Fin q) /\ Q2R q = 1) /\ blogic s (c_lhs c) = true /\ incl (lvars (c_lhs c)) (ukeys s).
+Definition qgood (s : lst) (c : constr) : Prop := cgood (ukeys s) c \/ agood s c.
+Lemma ukeys_dom s s' : s_dom s = s_dom s' -> ukeys s = ukeys s'.
+Proof. intros E. unfold ukeys. rewrite E. reflexivity. Qed.
+Lemma qgood_dom s s' c : s_dom s = s_dom s' -> qgood s c -> qgood s' c.
+Proof.
+  intros E [G|[A1 [A2 [A3 [A4 A5]]]]]; [left; rewrite <- (ukeys_dom s s' E); exact G|right].
+  repeat split; try assumption; [exact (blogic_dom s s' _ E A4)|rewrite <- (ukeys_dom s s' E); exact A5].
+Qed.
 Record INV (s : lst) : Prop := mkINV {
   inv_nd : NoDup (akeys s);
   (* a declared variable that is not used keeps a non-empty range (it is dropped from the linear model) *)
   inv_inh : forall n d, In (n, d) (s_dom s) -> dv_used d = false -> exists x, in_dom (dv_type d) x;
-  inv_q : Forall (cgood (ukeys s)) (s_queue s);
+  inv_q : Forall (qgood s) (s_queue s);
   inv_r : Forall (rgood (ukeys s)) (s_rows s);
   inv_box : dom_box s }.
 
@@ -373,12 +480,18 @@ Lemma dom_sat_agree D rho sigma : (forall n, In n (map fst D) -> rho n = sigma n
 Proof.
   intros A H n d Hin. rewrite <- A; [apply (H n d Hin)|]. apply in_map_iff. exists (n, d). split; [reflexivity|exact Hin].
 Qed.
+Lemma sat_qgood_agree s rho sigma c : qgood s c -> (forall n, In n (ukeys s) -> rho n = sigma n) -> sat_constr rho c -> sat_constr sigma c.
+Proof.
+  intros [G|[_ [_ [[q [Er _]] [Bl Il]]]]] A H; [exact (sat_constr_agree _ _ _ _ G A H)|].
+  destruct H as [l [r [El [Err Hc]]]]. exists l, r. rewrite <- (ev_agree_logic s rho sigma _ Bl) by (intros n Hn; apply A, Il, Hn).
+  rewrite Er in *. unfold ev in *. cbn [evg] in *. auto.
+Qed.
 (* a well-formed state means the same thing to two assignments that agree on its names *)
 Lemma st_sat_agree s rho sigma : INV s -> (forall n, In n (akeys s) -> rho n = sigma n) -> st_sat s rho -> st_sat s sigma.
 Proof.
   intros I A [Q [Rw D]]. assert (Au : forall n, In n (ukeys s) -> rho n = sigma n) by (intros n Hn; apply A; apply ukeys_sub; exact Hn).
   split; [|split].
-  - intros c Hc. eapply sat_constr_agree; [exact (proj1 (Forall_forall _ _) (inv_q s I) c Hc)|exact Au|exact (Q c Hc)].
+  - intros c Hc. eapply sat_qgood_agree; [exact (proj1 (Forall_forall _ _) (inv_q s I) c Hc)|exact Au|exact (Q c Hc)].
   - intros r Hr. eapply mrow_agree; [exact (proj1 (Forall_forall _ _) (inv_r s I) r Hr)|exact Au|exact (Rw r Hr)].
   - eapply dom_sat_agree; [exact A|exact D].
 Qed.
@@ -416,7 +529,7 @@ Definition decl (s : lst) (n : string) (t : vtype) : lst :=
 Definition addc (s : lst) (c : constr) : lst := mkS (c :: s_queue s) (s_rows s) (s_cnt s) (s_dom s) (s_an s).
 
 Lemma INV_set_cnt s cnt : INV s -> INV (set_cnt s cnt).
-Proof. intros [A B C D E]. constructor; assumption. Qed.
+Proof. intros [A B C D E]. constructor; try assumption. eapply Forall_impl; [|exact C]. intros c. apply qgood_dom. reflexivity. Qed.
 Lemma grows_set_cnt s cnt : grows s (set_cnt s cnt).
 Proof. split; [apply ext_same_dom; reflexivity|]. split; [reflexivity|]. exists []. reflexivity. Qed.
 Lemma st_sat_set_cnt s cnt sigma : st_sat s sigma -> st_sat (set_cnt s cnt) sigma.
@@ -431,6 +544,20 @@ Proof.
   intros M. split; [|split; [reflexivity|exists []; reflexivity]].
   apply (pres_declare n t s tt). unfold declare_variable. rewrite M. reflexivity.
 Qed.
+Lemma al_get_app_some {V} (m1 m2 : list (string * V)) k v : al_get m1 k = Some v -> al_get (m1 ++ m2) k = Some v.
+Proof. induction m1 as [|[k' v'] r IH]; cbn; [discriminate|]. destruct (String.eqb k k'); [auto|exact IH]. Qed.
+Lemma boolvar_ext s s' k : ext s s' -> is_boolean_var s k = true -> is_boolean_var s' k = true.
+Proof.
+  intros [[extra D] _ _]. unfold is_boolean_var. rewrite D. destruct (al_get (s_dom s) k) as [d|] eqn:G; [|discriminate].
+  rewrite (al_get_app_some _ extra k d G). auto.
+Qed.
+Lemma qgood_grows s s' c : grows s s' -> qgood s c -> qgood s' c.
+Proof.
+  intros G [Gc|[A1 [A2 [A3 [A4 A5]]]]]; [left; eapply cgood_mono; [apply grows_keys; exact G|exact Gc]|right].
+  repeat split; try assumption.
+  - apply (blogic_mono s s'); [|exact A4]. intros k Hk. destruct G as [E _]. exact (boolvar_ext s s' k E Hk).
+  - intros k Hk. apply (grows_keys _ _ G). apply A5. exact Hk.
+Qed.
 Lemma INV_decl s n t : INV s -> al_mem (s_dom s) n = false -> INV (decl s n t).
 Proof.
   intros [A B C D E] M. pose proof (grows_decl s n t M) as G. pose proof (grows_keys _ _ G) as IK.
@@ -438,7 +565,7 @@ Proof.
   - destruct G as [[_ ND _] _]. apply ND. exact A.
   - intros k d Hin Hu. unfold decl in Hin. cbn [s_dom] in Hin. apply in_app_or in Hin as [Hin|[Eq|[]]]; [exact (B k d Hin Hu)|].
     inversion Eq; subst. discriminate.
-  - eapply Forall_impl; [|exact C]. intros c. apply cgood_mono. exact IK.
+  - eapply Forall_impl; [|exact C]. intros c. apply qgood_grows. exact G.
   - eapply Forall_impl; [|exact D]. intros r. apply rgood_mono. exact IK.
   - intros sigma HD k Hk. rewrite keys_decl in Hk. unfold decl in *. cbn [s_dom s_an] in *.
     destruct (String.eqb k n) eqn:Ek.
@@ -463,7 +590,10 @@ Qed.
 Lemma grows_addc s c : grows s (addc s c).
 Proof. split; [apply ext_same_dom; reflexivity|]. split; [reflexivity|]. exists [c]. reflexivity. Qed.
 Lemma INV_addc s c : INV s -> cgood (ukeys s) c -> INV (addc s c).
-Proof. intros [A B C D E] G. constructor; try assumption. constructor; assumption. Qed.
+Proof.
+  intros [A B C D E] G. constructor; try assumption. cbn [addc s_queue]. constructor; [left; exact G|].
+  eapply Forall_impl; [|exact C]. intros c0. apply qgood_dom. reflexivity.
+Qed.
 Lemma st_sat_addc s c sigma : st_sat s sigma -> sat_constr sigma c -> st_sat (addc s c) sigma.
 Proof. intros [Q [Rw D]] H. split; [|split; assumption]. intros c' [<-|Hc]; [exact H|exact (Q c' Hc)]. Qed.
 
@@ -1922,63 +2052,333 @@ Proof.
     + intros x vx Hr. apply rel_neg. exact Hr.
 Qed.
 
-(* ---------- one step of the main loop on the arithmetic path *)
-Definition step_ok (c : constr) (s : lst) : bool :=
-  match fs_pure (c_lhs c), fs_pure (c_rhs c) with
-  | Some l, Some r =>
-      match try_normalize_logic_constraint s l (c_cmp c) r with
-      | Some _ => false
-      | None => match fs_pure (BinOp Sub l r) with
-                | Some e => okexp e && forallb (set_mem (ukeys s)) (xvars e)
-                | None => false
-                end
+(* ---------- affine logic assertions (linearizer.rs:736-889, try_lower_affine): an assertion over Boolean variables, constants
+   and negations of those - a conjunction, a disjunction, an implication, an equivalence, an exclusive or or a single
+   literal, asserted true or false - becomes ONE row over the 0/1 values of its literals; at every assignment that gives
+   the Boolean variables 0/1 values the row holds if and only if the formula evaluates to the asserted value. *)
+(* the row, as a function of the formula *)
+Fixpoint tla_row (s : lst) (e : exp) (must : bool) {struct e} : option (exp * cmp * exp) :=
+  match e with
+  | Not x | UnOp UNot x => tla_row s x (negb must)
+  | And l =>
+      match mapM (bav_exp s) l with
+      | None => None
+      | Some ops =>
+          let n := xq_of_Z (Z.of_nat (List.length ops)) in
+          Some (if must then (sum_exps ops, Eq, Num n) else (sum_exps ops, Le, Num (xq_sub n (Fin 1%Q))))
       end
-  | _, _ => false
+  | Or l =>
+      match mapM (bav_exp s) l with
+      | None => None
+      | Some ops => Some (sum_exps ops, (if must then Ge else Eq), Num (if must then Fin 1%Q else Fin 0%Q))
+      end
+  | Implies a b =>
+      match bav_exp s a, bav_exp s b with
+      | Some l, Some r => Some (if must then (l, Le, r) else (sub_exp l r, Eq, Num (Fin 1%Q)))
+      | _, _ => None
+      end
+  | Iff a b =>
+      match bav_exp s a, bav_exp s b with
+      | Some l, Some r => Some (if must then (l, Eq, r) else (add_exp l r, Eq, Num (Fin 1%Q)))
+      | _, _ => None
+      end
+  | Xor a b =>
+      match bav_exp s a, bav_exp s b with
+      | Some l, Some r => Some (if must then (add_exp l r, Eq, Num (Fin 1%Q)) else (l, Eq, r))
+      | _, _ => None
+      end
+  | Num _ | Var _ =>
+      match bav_exp s e with
+      | None => None
+      | Some v => Some (v, Eq, Num (if must then Fin 1%Q else Fin 0%Q))
+      end
+  | _ => None
   end.
 
+Lemma tla_as_row : forall e must name s,
+  try_lower_affine e must name s =
+  match tla_row s e must with
+  | Some (A, c, B) => bind (emit_constraint A c B name) (fun _ => ret true) s
+  | None => inr (false, s)
+  end.
+Proof.
+  induction e; intros must name st; cbn [try_lower_affine tla_row]; try reflexivity.
+  - unfold bind at 1, get_st. destruct (bav_exp st (Num x)); reflexivity.
+  - unfold bind at 1, get_st. destruct (bav_exp st (Var s)); reflexivity.
+  - unfold bind at 1, get_st. destruct (mapM (bav_exp st) l); [|reflexivity]. destruct must; reflexivity.
+  - unfold bind at 1, get_st. destruct (mapM (bav_exp st) l); [|reflexivity]. reflexivity.
+  - apply IHe.
+  - unfold bind at 1, get_st. destruct (bav_exp st e1); [|reflexivity]. destruct (bav_exp st e2); [|reflexivity]. destruct must; reflexivity.
+  - unfold bind at 1, get_st. destruct (bav_exp st e1); [|reflexivity]. destruct (bav_exp st e2); [|reflexivity]. destruct must; reflexivity.
+  - unfold bind at 1, get_st. destruct (bav_exp st e1); [|reflexivity]. destruct (bav_exp st e2); [|reflexivity]. destruct must; reflexivity.
+  - destruct op; [reflexivity|apply IHe].
+Qed.
+
+(* ---------- literals *)
+Lemma bav_sem s : forall e c, binary_affine_value s e = Some c ->
+  ctx_fin c /\ incl (ckeys c) (lvars e) /\ NoDup (ckeys c) /\
+  forall sigma, dom_sat (s_dom s) sigma -> exists b, evT sigma e = Some (bnR b) /\ ev sigma e = Some (bnR b) /\ ctx_val sigma c = bnR b.
+Proof.
+  induction e; intros c H; cbn [binary_affine_value] in H; try discriminate.
+  - destruct (xq_is_zero x || xq_is_one x) eqn:Z; [|discriminate]. inversion H; subst c; clear H.
+    destruct x as [q| | |]; try discriminate.
+    split; [exact (proj1 (from_rhs_sound (fun _ => 0) q))|]. split; [intros k []|]. split; [constructor|].
+    intros sigma _. apply orb_true_iff in Z as [Z|Z].
+    + apply xq_is_zero_Fin in Z. exists false. unfold evT, ev. cbn [evg]. rewrite Z. repeat split; try reflexivity. rewrite (proj2 (from_rhs_sound sigma q)). exact Z.
+    + apply xq_is_one_Fin in Z. exists true. unfold evT, ev. cbn [evg]. rewrite Z. repeat split; try reflexivity. rewrite (proj2 (from_rhs_sound sigma q)). exact Z.
+  - destruct (is_boolean_var s s0) eqn:B; [|discriminate]. inversion H; subst c; clear H.
+    split; [exact (proj1 (from_var_one (fun _ => 0) s0))|]. split; [intros k Hk; unfold l_from_var, l_add_var, l_new in Hk; cbn in Hk; exact Hk|]. split; [repeat constructor; intros []|].
+    intros sigma D. destruct (bin_bnR _ (bvar_bin s sigma s0 B D)) as [b Eb]. exists b. unfold evT, ev. cbn [evg]. rewrite Eb. repeat split; try reflexivity.
+    rewrite (proj2 (from_var_one sigma s0)). exact Eb.
+  - (* Not *) destruct (binary_affine_value s e) as [c0|] eqn:E0; [|discriminate]. inversion H; subst c; clear H.
+    destruct (IHe c0 eq_refl) as [F0 [K0 [N0 S0]]].
+    destruct (mul_by_sound (fun _ => 0) c0 (-1)%Q F0) as [F1 _]. destruct (add_rhs_sound (fun _ => 0) _ (Fin 1%Q) F1 eq_refl) as [F2 _].
+    split; [exact F2|]. split; [unfold ckeys, l_add_rhs, l_mul_by; cbn [l_vars]; rewrite map_map; cbn [fst]; exact K0|].
+    split; [unfold ckeys, l_add_rhs, l_mul_by; cbn [l_vars]; rewrite map_map; cbn [fst]; exact N0|].
+    intros sigma D. destruct (S0 sigma D) as [b [T [E V]]]. exists (negb b). unfold evT, ev in *. rewrite !evg_Not, T, E. cbn [option_map]. rewrite truthyR_bnR.
+    repeat split; try reflexivity. rewrite (proj2 (add_rhs_sound sigma _ (Fin 1%Q) F1 eq_refl)), (proj2 (mul_by_sound sigma c0 (-1)%Q F0)), V.
+    cbn [cval]. rewrite Q2R_1. replace (Q2R (-1)) with (-1) by (unfold Q2R; cbn; lra). destruct b; cbn; lra.
+  - (* UnOp UNot *) destruct op; [discriminate|]. destruct (binary_affine_value s e) as [c0|] eqn:E0; [|discriminate]. inversion H; subst c; clear H.
+    destruct (IHe c0 eq_refl) as [F0 [K0 [N0 S0]]].
+    destruct (mul_by_sound (fun _ => 0) c0 (-1)%Q F0) as [F1 _]. destruct (add_rhs_sound (fun _ => 0) _ (Fin 1%Q) F1 eq_refl) as [F2 _].
+    split; [exact F2|]. split; [unfold ckeys, l_add_rhs, l_mul_by; cbn [l_vars]; rewrite map_map; cbn [fst]; exact K0|].
+    split; [unfold ckeys, l_add_rhs, l_mul_by; cbn [l_vars]; rewrite map_map; cbn [fst]; exact N0|].
+    intros sigma D. destruct (S0 sigma D) as [b [T [E V]]]. exists (negb b). unfold evT, ev in *. rewrite !evg_UNot, T, E. cbn [option_map]. rewrite truthyR_bnR.
+    repeat split; try reflexivity. rewrite (proj2 (add_rhs_sound sigma _ (Fin 1%Q) F1 eq_refl)), (proj2 (mul_by_sound sigma c0 (-1)%Q F0)), V.
+    cbn [cval]. rewrite Q2R_1. replace (Q2R (-1)) with (-1) by (unfold Q2R; cbn; lra). destruct b; cbn; lra.
+Qed.
+
+(* ---------- lists of literals *)
+Lemma mapM_bav s : forall l ops, mapM (bav_exp s) l = Some ops ->
+  exists cs, ops = map context_to_exp cs /\ Forall2 (fun e c => binary_affine_value s e = Some c) l cs.
+Proof.
+  induction l as [|x l IH]; intros ops H; cbn [mapM] in H; [inversion H; exists []; split; [reflexivity|constructor]|].
+  unfold bav_exp at 1 in H. destruct (binary_affine_value s x) as [c|] eqn:Ec; [|discriminate]. cbn [option_map] in H.
+  destruct (mapM (bav_exp s) l) as [ops'|] eqn:El; [|discriminate]. inversion H; subst ops. destruct (IH ops' eq_refl) as [cs [E F]].
+  exists (c :: cs). split; [cbn [map]; rewrite E; reflexivity|constructor; assumption].
+Qed.
+
+Fixpoint count_true (bs : list bool) : nat := match bs with [] => O | b :: r => (if b then 1 else 0) + count_true r end.
+Lemma rsum_count bs : ArmLemmas.rsum (map bnR bs) = INR (count_true bs).
+Proof. induction bs as [|b bs IH]; [reflexivity|]. cbn [map ArmLemmas.rsum count_true]. rewrite IH, plus_INR. destruct b; cbn; lra. Qed.
+Lemma count_le bs : (count_true bs <= List.length bs)%nat.
+Proof. induction bs as [|b bs IH]; cbn; [lia|destruct b; lia]. Qed.
+Lemma count_all bs : count_true bs = List.length bs <-> forallb (fun b => b) bs = true.
+Proof. induction bs as [|b bs IH]; cbn; [tauto|]. pose proof (count_le bs). destruct b; cbn; [rewrite <- IH; lia|split; [lia|discriminate]]. Qed.
+Lemma count_none bs : count_true bs = O <-> existsb (fun b => b) bs = false.
+Proof. induction bs as [|b bs IH]; cbn; [tauto|]. destruct b; cbn; [split; [lia|discriminate]|exact IH]. Qed.
+Lemma forallb_truthy bs : forallb truthyR (map bnR bs) = forallb (fun b => b) bs.
+Proof. induction bs as [|b bs IH]; [reflexivity|]. cbn [map forallb]. rewrite truthyR_bnR, IH. reflexivity. Qed.
+Lemma existsb_truthy bs : existsb truthyR (map bnR bs) = existsb (fun b => b) bs.
+Proof. induction bs as [|b bs IH]; [reflexivity|]. cbn [map existsb]. rewrite truthyR_bnR, IH. reflexivity. Qed.
+
+Lemma literals_sem s sigma : dom_sat (s_dom s) sigma -> forall l cs, Forall2 (fun e c => binary_affine_value s e = Some c) l cs ->
+  exists bs, List.length bs = List.length l /\
+    evlist_ok sigma true l = Some (map bnR bs) /\ evlist_ok sigma false l = Some (map bnR bs) /\
+    Forall2 (fun c b => ctx_val sigma c = bnR b) cs bs.
+Proof.
+  intros D l cs F. induction F as [|e c l cs He _ IH]; [exists []; repeat split; constructor|].
+  destruct IH as [bs [Lb [T [U V]]]]. destruct (bav_sem s e c He) as [_ [_ [_ S]]]. destruct (S sigma D) as [b [Te [Ee Ve]]].
+  exists (b :: bs). unfold evT, ev in *. cbn [evlist_ok map List.length]. rewrite Te, Ee, T, U. unfold operand_ok. cbn [negb orb]. rewrite is_binR_bnR, orb_true_r.
+  repeat split; try reflexivity; [rewrite Lb; reflexivity|constructor; assumption].
+Qed.
+
+Lemma ev_sum_list sigma : forall es vs e0 v0, Forall2 (fun e v => ev sigma e = Some v) es vs -> ev sigma e0 = Some v0 ->
+  ev sigma (fold_left add_exp es e0) = Some (v0 + ArmLemmas.rsum vs).
+Proof.
+  induction es as [|e es IH]; intros vs e0 v0 F H0; inversion F as [|? y ? l' He Fl]; subst; cbn [fold_left ArmLemmas.rsum]; [rewrite H0; f_equal; lra|].
+  rewrite (IH l' (add_exp e0 e) (v0 + y) Fl); [f_equal; lra|]. unfold ev, add_exp in *. rewrite evg_BinOp, H0, He. reflexivity.
+Qed.
+Lemma ev_sum_exps sigma es vs : Forall2 (fun e v => ev sigma e = Some v) es vs -> ev sigma (sum_exps es) = Some (ArmLemmas.rsum vs).
+Proof.
+  intros F. destruct F as [|e v es vs He F]; [cbn; unfold ev; cbn; f_equal; apply Q2R_0|]. cbn [sum_exps ArmLemmas.rsum].
+  apply ev_sum_list; assumption.
+Qed.
+Lemma plainA_sum_list : forall es e0, Forall (fun e => plainA e = true) es -> plainA e0 = true -> plainA (fold_left add_exp es e0) = true.
+Proof. induction es as [|e es IH]; intros e0 F H0; [exact H0|]. inversion F as [|? ? He Fl]; subst. cbn [fold_left]. apply IH; [assumption|]. cbn [add_exp plainA]. rewrite H0, He. reflexivity. Qed.
+Lemma plainA_sum_exps es : Forall (fun e => plainA e = true) es -> plainA (sum_exps es) = true.
+Proof. intros F. destruct F as [|e es He F]; [reflexivity|]. cbn [sum_exps]. apply plainA_sum_list; assumption. Qed.
+
+Lemma ev_num_nat sigma n : ev sigma (Num (xq_of_Z (Z.of_nat n))) = Some (INR n).
+Proof. unfold ev, xq_of_Z. cbn [evg]. rewrite PublishSound.Q2R_inject_Z, <- INR_IZR_INZ. reflexivity. Qed.
+
+Lemma ops_values sigma : forall cs bs, Forall ctx_fin cs -> Forall2 (fun c b => ctx_val sigma c = bnR b) cs bs ->
+  Forall2 (fun e v => ev sigma e = Some v) (map context_to_exp cs) (map bnR bs).
+Proof.
+  induction cs as [|cx cs IH]; intros bs Fc V; inversion V as [|? b ? bs' Hc Vl]; subst; [constructor|]. inversion Fc as [|? ? Fx Fl]; subst.
+  cbn [map]. constructor; [rewrite (context_to_exp_sound sigma cx Fx), Hc; reflexivity|apply IH; assumption].
+Qed.
+
+(* ---------- the theorem: the row holds exactly when the formula has the asserted value *)
+Theorem tla_row_sem s : forall e must A c B, tla_row s e must = Some (A, c, B) ->
+  plainA A = true /\ plainA B = true /\
+  forall sigma, dom_sat (s_dom s) sigma ->
+    exists b a0 b0, evT sigma e = Some (bnR b) /\ ev sigma e = Some (bnR b) /\ ev sigma A = Some a0 /\ ev sigma B = Some b0 /\
+                    (cmp_holds c a0 b0 <-> b = must).
+Proof.
+  induction e; intros must A c B H; cbn [tla_row] in H; try discriminate.
+  - (* Num *) destruct (bav_exp s (Num x)) as [v|] eqn:Ev; [|discriminate]. inversion H; subst A c B; clear H.
+    unfold bav_exp in Ev. destruct (binary_affine_value s (Num x)) as [cx|] eqn:Ec; [|discriminate]. inversion Ev; subst v.
+    destruct (bav_sem s _ _ Ec) as [F [_ [_ S]]]. split; [apply plainA_ctx; exact F|]. split; [destruct must; reflexivity|].
+    intros sigma D. destruct (S sigma D) as [b [T [E V]]]. exists b, (bnR b), (if must then 1 else 0).
+    split; [exact T|]. split; [exact E|]. split; [rewrite (context_to_exp_sound sigma cx F), V; reflexivity|].
+    split; [destruct must; unfold ev; cbn [evg]; f_equal; [apply Q2R_1|apply Q2R_0]|]. cbn [cmp_holds]. destruct b, must; cbn; split; intros; try reflexivity; try discriminate; lra.
+  - (* Var *) destruct (bav_exp s (Var s0)) as [v|] eqn:Ev; [|discriminate]. inversion H; subst A c B; clear H.
+    unfold bav_exp in Ev. destruct (binary_affine_value s (Var s0)) as [cx|] eqn:Ec; [|discriminate]. inversion Ev; subst v.
+    destruct (bav_sem s _ _ Ec) as [F [_ [_ S]]]. split; [apply plainA_ctx; exact F|]. split; [destruct must; reflexivity|].
+    intros sigma D. destruct (S sigma D) as [b [T [E V]]]. exists b, (bnR b), (if must then 1 else 0).
+    split; [exact T|]. split; [exact E|]. split; [rewrite (context_to_exp_sound sigma cx F), V; reflexivity|].
+    split; [destruct must; unfold ev; cbn [evg]; f_equal; [apply Q2R_1|apply Q2R_0]|]. cbn [cmp_holds]. destruct b, must; cbn; split; intros; try reflexivity; try discriminate; lra.
+  - (* And *) destruct (mapM (bav_exp s) l) as [ops|] eqn:Em; [|discriminate]. destruct (mapM_bav s l ops Em) as [cs [Eo F]].
+    assert (Fc : Forall ctx_fin cs).
+    { clear -F. induction F as [|e c l cs He _ IH]; constructor; [exact (proj1 (bav_sem s e c He))|exact IH]. }
+    assert (Pa : plainA (sum_exps ops) = true).
+    { apply plainA_sum_exps. rewrite Eo. apply Forall_forall. intros o Ho. apply in_map_iff in Ho as [cx [<- Hc]]. apply plainA_ctx. exact (proj1 (Forall_forall _ _) Fc cx Hc). }
+    assert (Lo : List.length ops = List.length l) by (rewrite Eo, map_length; symmetry; exact (Forall2_len _ _ _ F)).
+    assert (Sem : forall sigma, dom_sat (s_dom s) sigma -> exists bs, List.length bs = List.length l /\
+              evT sigma (And l) = Some (bnR (forallb (fun b => b) bs)) /\ ev sigma (And l) = Some (bnR (forallb (fun b => b) bs)) /\
+              ev sigma (sum_exps ops) = Some (INR (count_true bs))).
+    { intros sigma D. destruct (literals_sem s sigma D l cs F) as [bs [Lb [T [U V]]]]. exists bs. split; [exact Lb|].
+      unfold evT, ev. rewrite !evg_And, T, U. cbn [option_map]. rewrite forallb_truthy. split; [reflexivity|]. split; [reflexivity|].
+      rewrite <- rsum_count. rewrite Eo. apply ev_sum_exps.
+      exact (ops_values sigma cs bs Fc V). }
+    destruct must; inversion H; subst A c B; clear H.
+    + split; [exact Pa|]. split; [reflexivity|]. intros sigma D. destruct (Sem sigma D) as [bs [Lb [T [U V]]]].
+      exists (forallb (fun b => b) bs), (INR (count_true bs)), (INR (List.length ops)). split; [exact T|]. split; [exact U|]. split; [exact V|]. split; [apply ev_num_nat|].
+      cbn [cmp_holds]. rewrite Lo, <- Lb. split.
+      * intros E. apply INR_eq in E. apply count_all. exact E.
+      * intros E. apply count_all in E. rewrite E. reflexivity.
+    + destruct (xq_sub_Fin (inject_Z (Z.of_nat (List.length ops))) 1%Q) as [d [Ed Vd]]. cbn [xq_sub xq_add xq_neg] in Ed. injection Ed as Ed. subst d.
+      split; [exact Pa|]. split; [reflexivity|]. intros sigma D. destruct (Sem sigma D) as [bs [Lb [T [U V]]]].
+      eexists (forallb (fun b => b) bs), (INR (count_true bs)), _. split; [exact T|]. split; [exact U|]. split; [exact V|]. split; [reflexivity|].
+      cbn [cmp_holds]. rewrite Vd, PublishSound.Q2R_inject_Z, <- INR_IZR_INZ, Q2R_1, Lo, <- Lb. pose proof (count_le bs) as Cl. split.
+      * intros E. destruct (forallb (fun b => b) bs) eqn:Fa; [|reflexivity]. apply count_all in Fa. rewrite Fa in E. lra.
+      * intros E. assert (Nc : count_true bs <> List.length bs) by (intros Ec; apply count_all in Ec; congruence).
+        assert (Hlt : (count_true bs + 1 <= List.length bs)%nat) by lia. apply le_INR in Hlt. rewrite plus_INR in Hlt. cbn in Hlt. lra.
+  - (* Or *) destruct (mapM (bav_exp s) l) as [ops|] eqn:Em; [|discriminate]. destruct (mapM_bav s l ops Em) as [cs [Eo F]].
+    assert (Fc : Forall ctx_fin cs).
+    { clear -F. induction F as [|e c l cs He _ IH]; constructor; [exact (proj1 (bav_sem s e c He))|exact IH]. }
+    assert (Pa : plainA (sum_exps ops) = true).
+    { apply plainA_sum_exps. rewrite Eo. apply Forall_forall. intros o Ho. apply in_map_iff in Ho as [cx [<- Hc]]. apply plainA_ctx. exact (proj1 (Forall_forall _ _) Fc cx Hc). }
+    inversion H; subst A c B; clear H. split; [exact Pa|]. split; [destruct must; reflexivity|].
+    intros sigma D. destruct (literals_sem s sigma D l cs F) as [bs [Lb [T [U V]]]].
+    exists (existsb (fun b => b) bs), (INR (count_true bs)), (if must then 1 else 0).
+    unfold evT, ev. rewrite !evg_Or, T, U. cbn [option_map]. rewrite existsb_truthy. split; [reflexivity|]. split; [reflexivity|]. split.
+    { rewrite <- rsum_count. rewrite Eo. apply ev_sum_exps.
+      exact (ops_values sigma cs bs Fc V). }
+    split; [destruct must; cbn [evg]; f_equal; [apply Q2R_1|apply Q2R_0]|].
+    destruct must; cbn [cmp_holds].
+    + split.
+      * intros E. destruct (existsb (fun b => b) bs) eqn:Ex; [reflexivity|]. apply count_none in Ex. rewrite Ex in E. cbn in E. lra.
+      * intros E. assert (Nc : count_true bs <> O) by (intros Ec; apply count_none in Ec; congruence).
+        assert (Hge : (1 <= count_true bs)%nat) by lia. apply le_INR in Hge. cbn in Hge. lra.
+    + split.
+      * intros E. replace 0 with (INR 0) in E by reflexivity. apply INR_eq in E. apply count_none. exact E.
+      * intros E. apply count_none in E. rewrite E. reflexivity.
+  - (* Not *) destruct (IHe (negb must) A c B H) as [Pa [Pb S]]. split; [exact Pa|]. split; [exact Pb|].
+    intros sigma D. destruct (S sigma D) as [b [a0 [b0 [T [E [Ea [Eb Hc]]]]]]]. exists (negb b), a0, b0.
+    unfold evT, ev in *. rewrite !evg_Not, T, E. cbn [option_map]. rewrite truthyR_bnR. repeat split; try assumption; try reflexivity.
+    + intros Hh. apply Hc in Hh. subst b. apply negb_involutive.
+    + intros Hh. apply Hc. subst must. symmetry. apply negb_involutive.
+  - (* Xor *) destruct (bav_exp s e1) as [l|] eqn:E1; [|discriminate]. destruct (bav_exp s e2) as [r|] eqn:E2; [|discriminate].
+    unfold bav_exp in E1, E2. destruct (binary_affine_value s e1) as [c1|] eqn:B1; [|discriminate]. destruct (binary_affine_value s e2) as [c2|] eqn:B2; [|discriminate].
+    inversion E1; subst l. inversion E2; subst r. destruct (bav_sem s _ _ B1) as [F1 [_ [_ S1]]]. destruct (bav_sem s _ _ B2) as [F2 [_ [_ S2]]].
+    pose proof (plainA_ctx c1 F1) as P1. pose proof (plainA_ctx c2 F2) as P2.
+    destruct must; inversion H; subst A c B; clear H.
+    + split; [cbn [add_exp plainA]; rewrite P1, P2; reflexivity|]. split; [reflexivity|]. intros sigma D.
+      destruct (S1 sigma D) as [b1 [T1 [U1 V1]]]. destruct (S2 sigma D) as [b2 [T2 [U2 V2]]].
+      exists (xorb b1 b2), (bnR b1 + bnR b2), 1. unfold evT, ev in *. rewrite !evg_Xor, T1, T2, U1, U2, !truthyR_bnR. split; [reflexivity|]. split; [reflexivity|].
+      split; [unfold add_exp; rewrite evg_BinOp; pose proof (context_to_exp_sound sigma c1 F1) as X1; pose proof (context_to_exp_sound sigma c2 F2) as X2; unfold ev in X1, X2; rewrite X1, X2, V1, V2; reflexivity|].
+      split; [cbn [evg]; f_equal; apply Q2R_1|]. cbn [cmp_holds]. destruct b1, b2; cbn; split; intros; try reflexivity; try discriminate; lra.
+    + split; [exact P1|]. split; [exact P2|]. intros sigma D.
+      destruct (S1 sigma D) as [b1 [T1 [U1 V1]]]. destruct (S2 sigma D) as [b2 [T2 [U2 V2]]].
+      exists (xorb b1 b2), (bnR b1), (bnR b2). unfold evT, ev in *. rewrite !evg_Xor, T1, T2, U1, U2, !truthyR_bnR. split; [reflexivity|]. split; [reflexivity|].
+      pose proof (context_to_exp_sound sigma c1 F1) as X1. pose proof (context_to_exp_sound sigma c2 F2) as X2. unfold ev in X1, X2.
+      split; [rewrite X1, V1; reflexivity|]. split; [rewrite X2, V2; reflexivity|]. cbn [cmp_holds]. destruct b1, b2; cbn; split; intros; try reflexivity; try discriminate; lra.
+  - (* Implies *) destruct (bav_exp s e1) as [l|] eqn:E1; [|discriminate]. destruct (bav_exp s e2) as [r|] eqn:E2; [|discriminate].
+    unfold bav_exp in E1, E2. destruct (binary_affine_value s e1) as [c1|] eqn:B1; [|discriminate]. destruct (binary_affine_value s e2) as [c2|] eqn:B2; [|discriminate].
+    inversion E1; subst l. inversion E2; subst r. destruct (bav_sem s _ _ B1) as [F1 [_ [_ S1]]]. destruct (bav_sem s _ _ B2) as [F2 [_ [_ S2]]].
+    pose proof (plainA_ctx c1 F1) as P1. pose proof (plainA_ctx c2 F2) as P2.
+    destruct must; inversion H; subst A c B; clear H.
+    + split; [exact P1|]. split; [exact P2|]. intros sigma D.
+      destruct (S1 sigma D) as [b1 [T1 [U1 V1]]]. destruct (S2 sigma D) as [b2 [T2 [U2 V2]]].
+      exists (negb b1 || b2)%bool, (bnR b1), (bnR b2). unfold evT, ev in *. rewrite !evg_Implies, T1, T2, U1, U2, !truthyR_bnR. split; [reflexivity|]. split; [reflexivity|].
+      pose proof (context_to_exp_sound sigma c1 F1) as X1. pose proof (context_to_exp_sound sigma c2 F2) as X2. unfold ev in X1, X2.
+      split; [rewrite X1, V1; reflexivity|]. split; [rewrite X2, V2; reflexivity|]. cbn [cmp_holds]. destruct b1, b2; cbn; split; intros; try reflexivity; try discriminate; lra.
+    + split; [cbn [sub_exp plainA]; rewrite P1, P2; reflexivity|]. split; [reflexivity|]. intros sigma D.
+      destruct (S1 sigma D) as [b1 [T1 [U1 V1]]]. destruct (S2 sigma D) as [b2 [T2 [U2 V2]]].
+      exists (negb b1 || b2)%bool, (bnR b1 - bnR b2), 1. unfold evT, ev in *. rewrite !evg_Implies, T1, T2, U1, U2, !truthyR_bnR. split; [reflexivity|]. split; [reflexivity|].
+      split; [unfold sub_exp; rewrite evg_BinOp; pose proof (context_to_exp_sound sigma c1 F1) as X1; pose proof (context_to_exp_sound sigma c2 F2) as X2; unfold ev in X1, X2; rewrite X1, X2, V1, V2; reflexivity|].
+      split; [cbn [evg]; f_equal; apply Q2R_1|]. cbn [cmp_holds]. destruct b1, b2; cbn; split; intros; try reflexivity; try discriminate; lra.
+  - (* Iff *) destruct (bav_exp s e1) as [l|] eqn:E1; [|discriminate]. destruct (bav_exp s e2) as [r|] eqn:E2; [|discriminate].
+    unfold bav_exp in E1, E2. destruct (binary_affine_value s e1) as [c1|] eqn:B1; [|discriminate]. destruct (binary_affine_value s e2) as [c2|] eqn:B2; [|discriminate].
+    inversion E1; subst l. inversion E2; subst r. destruct (bav_sem s _ _ B1) as [F1 [_ [_ S1]]]. destruct (bav_sem s _ _ B2) as [F2 [_ [_ S2]]].
+    pose proof (plainA_ctx c1 F1) as P1. pose proof (plainA_ctx c2 F2) as P2.
+    destruct must; inversion H; subst A c B; clear H.
+    + split; [exact P1|]. split; [exact P2|]. intros sigma D.
+      destruct (S1 sigma D) as [b1 [T1 [U1 V1]]]. destruct (S2 sigma D) as [b2 [T2 [U2 V2]]].
+      exists (Bool.eqb b1 b2), (bnR b1), (bnR b2). unfold evT, ev in *. rewrite !evg_Iff, T1, T2, U1, U2, !truthyR_bnR. split; [reflexivity|]. split; [reflexivity|].
+      pose proof (context_to_exp_sound sigma c1 F1) as X1. pose proof (context_to_exp_sound sigma c2 F2) as X2. unfold ev in X1, X2.
+      split; [rewrite X1, V1; reflexivity|]. split; [rewrite X2, V2; reflexivity|]. cbn [cmp_holds]. destruct b1, b2; cbn; split; intros; try reflexivity; try discriminate; lra.
+    + split; [cbn [add_exp plainA]; rewrite P1, P2; reflexivity|]. split; [reflexivity|]. intros sigma D.
+      destruct (S1 sigma D) as [b1 [T1 [U1 V1]]]. destruct (S2 sigma D) as [b2 [T2 [U2 V2]]].
+      exists (Bool.eqb b1 b2), (bnR b1 + bnR b2), 1. unfold evT, ev in *. rewrite !evg_Iff, T1, T2, U1, U2, !truthyR_bnR. split; [reflexivity|]. split; [reflexivity|].
+      split; [unfold add_exp; rewrite evg_BinOp; pose proof (context_to_exp_sound sigma c1 F1) as X1; pose proof (context_to_exp_sound sigma c2 F2) as X2; unfold ev in X1, X2; rewrite X1, X2, V1, V2; reflexivity|].
+      split; [cbn [evg]; f_equal; apply Q2R_1|]. cbn [cmp_holds]. destruct b1, b2; cbn; split; intros; try reflexivity; try discriminate; lra.
+  - (* UnOp *) destruct op; [discriminate|]. destruct (IHe (negb must) A c B H) as [Pa [Pb S]]. split; [exact Pa|]. split; [exact Pb|].
+    intros sigma D. destruct (S sigma D) as [b [a0 [b0 [T [E [Ea [Eb Hc]]]]]]]. exists (negb b), a0, b0.
+    unfold evT, ev in *. rewrite !evg_UNot, T, E. cbn [option_map]. rewrite truthyR_bnR. repeat split; try assumption; try reflexivity.
+    + intros Hh. apply Hc in Hh. subst b. apply negb_involutive.
+    + intros Hh. apply Hc. subst must. symmetry. apply negb_involutive.
+Qed.
+
+(* ---------- one step of the main loop: an arithmetic constraint, or an assertion lowered to one affine row *)
 Definition req_of_cmp (c : cmp) : req :=
   match c with Le | Lt => PreferLower | Ge | Gt => PreferHigher | Eq => Exact end.
 Lemma row_back c X k a b : rel (req_of_cmp c) X (a - b) -> cmp_holds c (X - k) (- k) -> cmp_holds c a b.
 Proof. destruct c; cbn; lra. Qed.
 Lemma row_fwd c k a b : cmp_holds c a b -> cmp_holds c ((a - b) - k) (- k).
 Proof. destruct c; cbn; lra. Qed.
-
 Definition pushr (s : lst) (r : midrow) : lst := mkS (s_queue s) (s_rows s ++ [r]) (s_cnt s) (s_dom s) (s_an s).
 
-Lemma process_ok c s u s' : INV s -> cgood (ukeys s) c -> step_ok c s = true -> process_constraint c s = inr (u, s') ->
+Definition emit_trace (A B : exp) (s : lst) : bool :=
+  match fs_pure (BinOp Sub A B) with
+  | Some e => okexp e && forallb (set_mem (ukeys s)) (xvars e)
+  | None => false
+  end.
+
+Lemma emit_ok A cmpk B name s u s' : INV s ->
+  (forall sigma, exists a b, evT sigma A = Some a /\ ev sigma A = Some a /\ evT sigma B = Some b /\ ev sigma B = Some b) ->
+  emit_trace A B s = true -> emit_constraint A cmpk B name s = inr (u, s') ->
   INV s' /\ ext s s' /\
-  (forall sigma, st_sat s' sigma -> st_sat s sigma /\ sat_constr sigma c) /\
-  (forall rho, st_sat s rho -> sat_constr rho c -> exists sigma, (forall n, In n (akeys s) -> sigma n = rho n) /\ st_sat s' sigma).
+  (forall sigma, st_sat s' sigma -> st_sat s sigma /\ exists a b, ev sigma A = Some a /\ ev sigma B = Some b /\ cmp_holds cmpk a b) /\
+  (forall rho a b, st_sat s rho -> ev rho A = Some a -> ev rho B = Some b -> cmp_holds cmpk a b ->
+     exists sigma, (forall n, In n (akeys s) -> sigma n = rho n) /\ st_sat s' sigma).
 Proof.
-  intros I [NA [Pl [Pr [Il Ir]]]] SO H. unfold step_ok in SO.
-  destruct (fs_pure (c_lhs c)) as [l|] eqn:Fl; [|discriminate]. destruct (fs_pure (c_rhs c)) as [r|] eqn:Fr; [|discriminate].
-  destruct (try_normalize_logic_constraint s l (c_cmp c) r) eqn:TN; [discriminate|].
-  destruct (fs_pure (BinOp Sub l r)) as [e|] eqn:Fe; [|discriminate]. apply andb_true_iff in SO as [Oe Ve].
-  apply forallb_mem_incl in Ve.
-  unfold process_constraint, bind in H. rewrite flatten_simplify_eq, Fl in H. rewrite flatten_simplify_eq, Fr in H.
-  rewrite NA in H. unfold get_st in H. rewrite TN in H.
+  intros I Tot ET H. unfold emit_trace in ET. destruct (fs_pure (BinOp Sub A B)) as [e|] eqn:Fe; [|discriminate].
+  apply andb_true_iff in ET as [Oe Ve]. apply forallb_mem_incl in Ve.
   unfold emit_constraint, bind in H. rewrite flatten_simplify_eq, Fe in H. unfold linearize_exp in H.
-  fold (req_of_cmp (c_cmp c)) in H.
+  fold (req_of_cmp cmpk) in H.
   match type of H with context [lin ?n e ?rq s] => destruct (lin n e rq s) as [er|[v s2]] eqn:EL; [discriminate|] end.
   unfold push_row in H. inversion H; subst s'; clear H.
-  assert (Vals : forall sigma, exists a b, ev sigma (c_lhs c) = Some a /\ ev sigma (c_rhs c) = Some b /\ ev sigma e = Some (a - b)).
-  { intros sigma. destruct (plainA_total sigma _ Pl) as [a [Ta Ea]]. destruct (plainA_total sigma _ Pr) as [b [Tb Eb]].
-    exists a, b. split; [exact Ea|]. split; [exact Eb|].
-    destruct (fs_pure_sound sigma _ _ _ Fl Ta) as [Tl _]. destruct (fs_pure_sound sigma _ _ _ Fr Tb) as [Tr _].
-    assert (Ts : evT sigma (BinOp Sub l r) = Some (a - b)) by (unfold evT in *; rewrite evg_BinOp, Tl, Tr; reflexivity).
+  assert (Vals : forall sigma, exists a b, ev sigma A = Some a /\ ev sigma B = Some b /\ ev sigma e = Some (a - b)).
+  { intros sigma. destruct (Tot sigma) as [a [b [Ta [Ea [Tb Eb]]]]]. exists a, b. split; [exact Ea|]. split; [exact Eb|].
+    assert (Ts : evT sigma (BinOp Sub A B) = Some (a - b)) by (unfold evT in *; rewrite evg_BinOp, Ta, Tb; reflexivity).
     exact (proj2 (fs_pure_sound sigma _ _ _ Fe Ts)). }
   assert (Te : tot e) by (intros sigma; destruct (Vals sigma) as [a [b [_ [_ E]]]]; eauto).
   destruct (lin_ok _ _ _ _ _ _ Oe I Ve Te EL) as [I2 [G2 [K2 [F2 [S2 C2]]]]].
-  set (row := mkRow (c_name c) (l_vars v) (xq_neg (l_rhs v)) (c_cmp c)).
+  set (row := mkRow name (l_vars v) (xq_neg (l_rhs v)) cmpk).
   change (mkS (s_queue s2) (s_rows s2 ++ [row]) (s_cnt s2) (s_dom s2) (s_an s2)) with (pushr s2 row).
   destruct F2 as [Fv Fr2]. destruct (fin_neg (l_rhs v) Fr2) as [Fn Vn].
-  assert (Hrow : forall sigma, mrow_holds sigma row <-> cmp_holds (c_cmp c) (ctx_val sigma v - cval (l_rhs v)) (- cval (l_rhs v))).
+  assert (Hrow : forall sigma, mrow_holds sigma row <-> cmp_holds cmpk (ctx_val sigma v - cval (l_rhs v)) (- cval (l_rhs v))).
   { intros sigma. unfold mrow_holds, row. cbn [r_cmp r_lhs r_rhs]. rewrite Vn. unfold ctx_val.
     replace (cs_val sigma (l_vars v) + cval (l_rhs v) - cval (l_rhs v)) with (cs_val sigma (l_vars v)) by lra. reflexivity. }
   split; [|split; [|split]].
-  - destruct I2 as [A B C D E]. constructor; try assumption. cbn [pushr s_rows]. apply Forall_app. split; [exact D|].
-    constructor; [|constructor]. unfold rgood, row. cbn [r_lhs r_rhs]. destruct K2 as [K2a K2b].
-    split; [exact K2a|]. split; [exact K2b|]. split; [exact Fv|exact Fn].
+  - destruct I2 as [A0 B0 C D E]. constructor; try assumption.
+    + eapply Forall_impl; [|exact C]. intros c0. apply qgood_dom. reflexivity.
+    + cbn [pushr s_rows]. apply Forall_app. split; [exact D|].
+      constructor; [|constructor]. unfold rgood, row. cbn [r_lhs r_rhs]. destruct K2 as [K2a K2b].
+      split; [exact K2a|]. split; [exact K2b|]. split; [exact Fv|exact Fn].
   - destruct G2 as [E2 _]. eapply ext_trans; [exact E2|apply ext_same_dom; reflexivity].
   - intros sigma [Q [Rw D]].
     assert (S2s : st_sat s2 sigma).
@@ -1987,12 +2387,90 @@ Proof.
     destruct (Vals sigma) as [a [b [Ea [Eb Ee]]]]. exists a, b. split; [exact Ea|]. split; [exact Eb|].
     assert (Hr : mrow_holds sigma row) by (apply Rw; cbn [pushr s_rows]; apply in_or_app; right; left; reflexivity).
     apply Hrow in Hr. eapply row_back; [exact (S2 sigma _ S2s Ee)|exact Hr].
-  - intros rho S [a [b [Ea [Eb Hab]]]]. destruct (Vals rho) as [a' [b' [Ea' [Eb' Ee]]]].
+  - intros rho a b S Ea Eb Hab. destruct (Vals rho) as [a' [b' [Ea' [Eb' Ee]]]].
     rewrite Ea in Ea'. rewrite Eb in Eb'. inversion Ea'; inversion Eb'; subst a' b'.
-    destruct (C2 rho _ S Ee) as [sigma [A [S2' V]]]. exists sigma. split; [exact A|].
+    destruct (C2 rho _ S Ee) as [sigma [Ag [S2' V]]]. exists sigma. split; [exact Ag|].
     destruct S2' as [Q [Rw D]]. split; [exact Q|]. split; [|exact D].
     intros r0 Hr0. cbn [pushr s_rows] in Hr0. apply in_app_or in Hr0 as [Hr0|[<-|[]]]; [exact (Rw r0 Hr0)|].
     apply Hrow. rewrite V. apply row_fwd. exact Hab.
+Qed.
+
+Definition step_ok (c : constr) (s : lst) : bool :=
+  if c_assert c then
+    match fs_pure (c_lhs c) with
+    | Some l => negb (is_num l) && match tla_row s l true with Some (A, k, B) => emit_trace A B s | None => false end
+    | None => false
+    end
+  else
+  match fs_pure (c_lhs c), fs_pure (c_rhs c) with
+  | Some l, Some r =>
+      match try_normalize_logic_constraint s l (c_cmp c) r with
+      | Some _ => false
+      | None => emit_trace l r s
+      end
+  | _, _ => false
+  end.
+
+Lemma lower_assert_handled n e must name s s1 : is_num e = false ->
+  try_lower_affine e must name s = inr (true, s1) -> lower_assert (S n) e must name s = inr (tt, s1).
+Proof.
+  intros Hn H. destruct e; try discriminate; cbn [lower_assert]; unfold bind; rewrite H; reflexivity.
+Qed.
+
+Lemma process_ok c s u s' : INV s -> qgood s c -> step_ok c s = true -> process_constraint c s = inr (u, s') ->
+  INV s' /\ ext s s' /\
+  (forall sigma, st_sat s' sigma -> st_sat s sigma /\ sat_constr sigma c) /\
+  (forall rho, st_sat s rho -> sat_constr rho c -> exists sigma, (forall n, In n (akeys s) -> sigma n = rho n) /\ st_sat s' sigma).
+Proof.
+  intros I [[NA [Pl [Pr [Il Ir]]]]|[NA [Ecmp [[q1 [Erhs Eq1]] [Bl Il]]]]] SO H; unfold step_ok in SO; rewrite NA in SO.
+  - (* arithmetic *)
+    destruct (fs_pure (c_lhs c)) as [l|] eqn:Fl; [|discriminate]. destruct (fs_pure (c_rhs c)) as [r|] eqn:Fr; [|discriminate].
+    destruct (try_normalize_logic_constraint s l (c_cmp c) r) eqn:TN; [discriminate|].
+    unfold process_constraint, bind in H. rewrite flatten_simplify_eq, Fl in H. rewrite flatten_simplify_eq, Fr in H.
+    rewrite NA in H. unfold get_st in H. rewrite TN in H.
+    assert (Tot : forall sigma, exists a b, evT sigma l = Some a /\ ev sigma l = Some a /\ evT sigma r = Some b /\ ev sigma r = Some b).
+    { intros sigma. destruct (plainA_total sigma _ Pl) as [a [Ta _]]. destruct (plainA_total sigma _ Pr) as [b [Tb _]].
+      destruct (fs_pure_sound sigma _ _ _ Fl Ta) as [Tl El]. destruct (fs_pure_sound sigma _ _ _ Fr Tb) as [Tr Er]. exists a, b. auto. }
+    assert (Same : forall sigma a b, ev sigma l = Some a -> ev sigma r = Some b -> ev sigma (c_lhs c) = Some a /\ ev sigma (c_rhs c) = Some b).
+    { intros sigma a b Ea Eb. destruct (plainA_total sigma _ Pl) as [a' [Ta Ea']]. destruct (plainA_total sigma _ Pr) as [b' [Tb Eb']].
+      destruct (fs_pure_sound sigma _ _ _ Fl Ta) as [_ El]. destruct (fs_pure_sound sigma _ _ _ Fr Tb) as [_ Er]. split; congruence. }
+    destruct (emit_ok l (c_cmp c) r (c_name c) s u s' I Tot SO H) as [I' [E' [S' C']]].
+    split; [exact I'|]. split; [exact E'|]. split.
+    + intros sigma Ss. destruct (S' sigma Ss) as [Sb [a [b [Ea [Eb Hab]]]]]. split; [exact Sb|].
+      destruct (Same sigma a b Ea Eb) as [Xa Xb]. exists a, b. auto.
+    + intros rho Ss [a [b [Ea [Eb Hab]]]]. destruct (Tot rho) as [a' [b' [_ [Ea' [_ Eb']]]]].
+      destruct (Same rho a' b' Ea' Eb') as [Xa Xb]. rewrite Ea in Xa. rewrite Eb in Xb. inversion Xa; inversion Xb; subst a' b'.
+      exact (C' rho a b Ss Ea' Eb' Hab).
+  - (* an assertion lowered to one affine row *)
+    destruct (fs_pure (c_lhs c)) as [l|] eqn:Fl; [|discriminate]. apply andb_true_iff in SO as [Nn SO]. apply negb_true_iff in Nn.
+    destruct (tla_row s l true) as [[[A k] B]|] eqn:ER; [|discriminate].
+    unfold process_constraint, bind in H. rewrite flatten_simplify_eq, Fl in H. rewrite flatten_simplify_eq in H.
+    destruct (fs_pure (c_rhs c)) as [r|]; [|discriminate]. rewrite NA in H. unfold lower_logic_assertion in H.
+    pose proof (tla_as_row l true (c_name c) s) as TA. rewrite ER in TA. unfold bind in TA.
+    destruct (emit_constraint A k B (c_name c) s) as [er|[u1 s1]] eqn:EM.
+    { exfalso. replace (exp_depth l + 2)%nat with (S (exp_depth l + 1)) in H by lia.
+      destruct l; try discriminate; cbn [lower_assert] in H; unfold bind in H; rewrite TA in H; discriminate. }
+    unfold ret in TA. replace (exp_depth l + 2)%nat with (S (exp_depth l + 1)) in H by lia.
+    rewrite (lower_assert_handled _ l true (c_name c) s s1 Nn TA) in H. inversion H; subst s1; clear H.
+    destruct (tla_row_sem s l true A k B ER) as [Pa [Pb Sem]].
+    assert (Tot : forall sigma, exists a b, evT sigma A = Some a /\ ev sigma A = Some a /\ evT sigma B = Some b /\ ev sigma B = Some b).
+    { intros sigma. destruct (plainA_total sigma _ Pa) as [a [Ta Ea]]. destruct (plainA_total sigma _ Pb) as [b [Tb Eb]]. exists a, b. auto. }
+    destruct (emit_ok A k B (c_name c) s u1 s' I Tot SO EM) as [I' [E' [S' C']]].
+    assert (Truth : forall sigma, dom_sat (s_dom s) sigma -> forall a0 b0, ev sigma A = Some a0 -> ev sigma B = Some b0 ->
+              (cmp_holds k a0 b0 <-> sat_constr sigma c)).
+    { intros sigma D a0 b0 Ea Eb. destruct (Sem sigma D) as [b [a1 [b1 [Tl [El [Ea1 [Eb1 Hc]]]]]]].
+      rewrite Ea in Ea1. rewrite Eb in Eb1. inversion Ea1; inversion Eb1; subst a1 b1.
+      destruct (blogic_total s sigma D _ Bl) as [b' [Tc Ec]]. destruct (fs_pure_sound sigma _ _ _ Fl Tc) as [_ El'].
+      rewrite El in El'. assert (Eb' : b = b') by (destruct b, b'; cbn in El'; inversion El'; try reflexivity; lra). subst b'.
+      rewrite Hc. unfold sat_constr. rewrite Ecmp, Erhs, Ec. cbn [cmp_holds]. split.
+      - intros ->. exists 1, 1. unfold ev. cbn [evg bnR]. rewrite Eq1. auto.
+      - intros [l0 [r0 [E1 [E2 E3]]]]. unfold ev in E2. cbn [evg] in E2. rewrite Eq1 in E2. injection E1 as <-. injection E2 as <-.
+        destruct b; [reflexivity|cbn in E3; lra]. }
+    split; [exact I'|]. split; [exact E'|]. split.
+    + intros sigma Ss. destruct (S' sigma Ss) as [Sb [a [b [Ea [Eb Hab]]]]]. split; [exact Sb|].
+      apply (Truth sigma (proj2 (proj2 Sb)) a b Ea Eb). exact Hab.
+    + intros rho Ss Sc. destruct (Tot rho) as [a [b [_ [Ea [_ Eb]]]]].
+      apply (C' rho a b Ss Ea Eb). apply (Truth rho (proj2 (proj2 Ss)) a b Ea Eb). exact Sc.
 Qed.
 
 (* ---------- the main loop *)
@@ -2024,9 +2502,10 @@ Proof.
   - apply andb_true_iff in T as [SO T]. fold (popq s rest) in H.
     destruct (process_constraint c (popq s rest)) as [er|[u1 s1]] eqn:P; [discriminate|].
     assert (Ip : INV (popq s rest)).
-    { destruct I as [A B C D E]. constructor; try assumption. cbn [popq s_queue]. rewrite Q in C. inversion C; assumption. }
-    assert (Gc : cgood (ukeys (popq s rest)) c).
-    { destruct I as [_ _ C _ _]. rewrite Q in C. inversion C; assumption. }
+    { destruct I as [A B C D E]. constructor; try assumption. cbn [popq s_queue]. rewrite Q in C. inversion C as [|? ? _ Cr]; subst.
+      eapply Forall_impl; [|exact Cr]. intros c0. apply qgood_dom. reflexivity. }
+    assert (Gc : qgood (popq s rest) c).
+    { destruct I as [_ _ C _ _]. rewrite Q in C. inversion C as [|? ? Cc _]; subst. eapply qgood_dom; [|exact Cc]. reflexivity. }
     destruct (process_ok c (popq s rest) u1 s1 Ip Gc SO P) as [I1 [E1 [S1 C1]]].
     destruct (IH s1 u s2 I1 T H) as [I2 [E2 [Q2 [S2 C2]]]].
     split; [exact I2|]. split; [eapply ext_trans; [|eapply ext_trans; [exact E1|exact E2]]; apply ext_same_dom; reflexivity|].
@@ -2151,7 +2630,7 @@ Proof.
   intros I [Q [Rw DU]]. destruct (fix_unused (s_dom s) sigma (inv_nd s I) (inv_inh s I) DU) as [sg [A D]].
   assert (Au : forall n, In n (ukeys s) -> sigma n = sg n) by (intros n Hn; symmetry; apply A; apply used_not_unused; [exact (inv_nd s I)|exact Hn]).
   exists sg. split; [intros n Hn; symmetry; apply Au; exact Hn|]. split; [|split; [|exact D]].
-  - intros c Hc. eapply sat_constr_agree; [exact (proj1 (Forall_forall _ _) (inv_q s I) c Hc)|exact Au|exact (Q c Hc)].
+  - intros c Hc. eapply sat_qgood_agree; [exact (proj1 (Forall_forall _ _) (inv_q s I) c Hc)|exact Au|exact (Q c Hc)].
   - intros r Hr. eapply mrow_agree; [exact (proj1 (Forall_forall _ _) (inv_r s I) r Hr)|exact Au|exact (Rw r Hr)].
 Qed.
 
@@ -2244,7 +2723,7 @@ Record abs_model (m : model) : Prop := mkBM {
   (* a declared variable that occurs nowhere is dropped by the compiler; the source model is then feasible only if its range is not empty *)
   bm_inh : forall n d, In (n, d) (m_domain m) -> dv_used d = false ->
              exists x, in_dom (tighten_type (analyze (decl_types m) (m_constraints m)) n (dv_type d)) x;
-  bm_cs : Forall (cgood (unames m)) (m_constraints m);
+  bm_cs : Forall (qgood (init_state m)) (m_constraints m);
   bm_obj : plainA (m_obj m) = true;
   bm_obj_vars : incl (xvars (m_obj m)) (unames m);
   bm_trace : compile_trace m = true }.
@@ -2262,7 +2741,7 @@ Proof.
   - rewrite akeys_init. exact ND.
   - intros n d Hin Hu. unfold init_state, cdom in Hin. cbn [s_dom] in Hin. apply in_map_iff in Hin as [[n0 d0] [E Hin]].
     cbn [fst snd] in E. injection E as <- <-. cbn [dv_used dv_type] in *. exact (Hinh _ _ Hin Hu).
-  - rewrite keys_init. exact Hcs.
+  - exact Hcs.
   - constructor.
   - intros sigma HD n Hn. rewrite keys_init in Hn. apply unames_sub in Hn. apply in_map_iff in Hn as [[n0 d0] [E Hin]]. cbn [fst] in E. subst n0.
     set (an := analyze (decl_types m) (m_constraints m)).
@@ -2402,6 +2881,19 @@ Proof.
   apply andb_true_iff in H as [H H3]. apply andb_true_iff in H as [H1 H2]. apply negb_true_iff in H1.
   repeat split; try assumption; apply forallb_mem_incl; assumption.
 Qed.
+Definition agoodb (s : lst) (c : constr) : bool :=
+  c_assert c && cmp_eqb (c_cmp c) Eq && (match c_rhs c with Num (Fin q) => q_eqb q 1 | _ => false end) &&
+  blogic s (c_lhs c) && forallb (set_mem (ukeys s)) (lvars (c_lhs c)).
+Definition qgoodb (s : lst) (c : constr) : bool := cgoodb (ukeys s) c || agoodb s c.
+Lemma qgoodb_sound s c : qgoodb s c = true -> qgood s c.
+Proof.
+  unfold qgoodb. intros H. apply orb_true_iff in H as [H|H]; [left; apply cgoodb_sound; exact H|right].
+  unfold agoodb in H. apply andb_true_iff in H as [H H5]. apply andb_true_iff in H as [H H4]. apply andb_true_iff in H as [H H3].
+  apply andb_true_iff in H as [H1 H2]. split; [exact H1|]. split; [destruct (c_cmp c); try discriminate; reflexivity|].
+  split; [|split; [exact H4|apply forallb_mem_incl; exact H5]].
+  destruct (c_rhs c) as [x| | | | | | | | | | | |]; try discriminate. destruct x as [q| | |]; try discriminate. exists q. split; [reflexivity|].
+  apply q_eqb_true in H3. rewrite H3. apply Q2R_1.
+Qed.
 (* a rational member of a range *)
 Definition xq_le_Qb (a : xq) (q : Q) : bool := match a with Fin p => q_leb p q | NInf => true | _ => false end.
 Definition Q_le_xqb (q : Q) (b : xq) : bool := match b with Fin p => q_leb q p | PInf => true | _ => false end.
@@ -2443,7 +2935,7 @@ Definition abs_modelb (m : model) : bool :=
   nodup_names (map fst (m_domain m))
   && forallb (fun p : string * dvar => wf_vtypeb (dv_type (snd p)) && decl_okb (dv_type (snd p))
                 && (dv_used (snd p) || inhabb (tighten_type an (fst p) (dv_type (snd p))))) (m_domain m)
-  && forallb (cgoodb U) (m_constraints m)
+  && forallb (qgoodb (init_state m)) (m_constraints m)
   && plainA (m_obj m)
   && forallb (set_mem U) (xvars (m_obj m))
   && compile_trace m.
@@ -2463,7 +2955,7 @@ Proof.
     apply Z.leb_le in W1. apply Z.leb_le in W2. split; assumption.
   - intros n d Hin. destruct (Hd' n d Hin) as [_ [T _]]. exact (decl_okb_sound _ T).
   - intros n d Hin Hu. destruct (Hd' n d Hin) as [_ [_ T]]. rewrite Hu in T. cbn [orb] in T. exact (inhabb_sound _ T).
-  - apply Forall_forall. intros c Hin. apply cgoodb_sound. exact (proj1 (forallb_forall _ _) Hc c Hin).
+  - apply Forall_forall. intros c Hin. apply qgoodb_sound. exact (proj1 (forallb_forall _ _) Hc c Hin).
   - exact Hpo.
   - apply forallb_mem_incl. exact Hov.
   - exact Ht.
@@ -2515,4 +3007,16 @@ Definition m4 : model :=
     [mkConstr "" (Max [Var "x"; Var "y"]) Ge (Num (Fin 1%Q)) false]
     [("x", mkDV (TReal (Fin (-4)%Q) (Fin 6%Q)) true); ("w", mkDV (TIntegerRange 2 9) false); ("y", mkDV (TReal (Fin (-3)%Q) (Fin 5%Q)) true)].
 Example m4_in_fragment : abs_modelb m4 = true.
+Proof. vm_compute. reflexivity. Qed.
+
+(* logic assertions over Boolean variables, each lowered to one affine row, next to arithmetic with abs *)
+Definition m5 : model :=
+  mkModel DMax (BinOp Add (BinOp Add (Var "a") (BinOp Mul (Num (Fin 2%Q)) (Var "b"))) (BinOp Sub (Var "c") (Abs (Var "x"))))
+    [mkConstr "" (Or [Var "a"; Var "b"]) Eq (Num (Fin 1%Q)) true;
+     mkConstr "imp" (Implies (Var "a") (Not (Var "c"))) Eq (Num (Fin 1%Q)) true;
+     mkConstr "" (Not (And [Var "b"; Var "c"])) Eq (Num (Fin 1%Q)) true;
+     mkConstr "" (Xor (Var "a") (Var "b")) Eq (Num (Fin 1%Q)) true;
+     mkConstr "" (BinOp Add (Var "x") (Var "a")) Ge (Num (Fin 1%Q)) false]
+    [("a", mkDV TBoolean true); ("b", mkDV TBoolean true); ("c", mkDV TBoolean true); ("x", mkDV (TReal (Fin (-2)%Q) (Fin 3%Q)) true)].
+Example m5_in_fragment : abs_modelb m5 = true.
 Proof. vm_compute. reflexivity. Qed.
